@@ -85,6 +85,12 @@ def ops_family(seed, tier, ws):
     progs.append(('isint_bool', 'int a, int b', 'bool p = a > b;', '(p is int)', 'ii', ARITH_TEMPLATE))
     progs.append(('isbyte_bool', 'int a, int b', 'bool p = a > b;', '((p is byte) is int)', 'ii', ARITH_TEMPLATE))
     progs.append(('byte_widen', 'byte a, byte b', '', '(a - b)', 'bb', ARITH_TEMPLATE))
+    # a literal on the left / on the right of every comparison (the compiler may mirror or specialise these)
+    for op in cmpops:
+        for nm, e, pt, kd in (('litleft_' + op, '(7 %s a)' % op, 'int a, int b', 'ii'), ('litright_' + op, '(a %s 7)' % op, 'int a, int b', 'ii'),
+                              ('charleft_' + op, "('c' %s a)" % op, 'byte a, byte b', 'bb'), ('negleft_' + op, '((0 - 1) %s a)' % op, 'int a, int b', 'ii'),
+                              ('zeroleft_' + op, '(0 %s a)' % op, 'int a, int b', 'ii'), ('maxright_' + op, '(a %s 32767)' % op, 'int a, int b', 'ii')):
+            progs.append(('cmp_' + nm, pt, '', e, kd, POS_TEMPLATE))
     # comparisons whose operand is itself arithmetic that may wrap, or arithmetic over bytes that leaves the byte range
     for op in cmpops:
         progs.append(('cmp_diff0_' + op, 'int a, int b', '', '((a - b) %s 0)' % op, 'ii', POS_TEMPLATE))
@@ -497,6 +503,25 @@ empty @is_you(int a) { write([side(a), side(a + 1)].length); write(g); write(["x
                       '''int g = 0; int side(int v) { g += 1; write('s'); return v; }
 empty @is_you(int a) { int[] t1 = [side(a), side(a + 1)]; write(t1.length); write(g); string[] t2 = ["x", "yz"]; write(t2.length); int[] t3 = [side(1)]; string t4 = "abc"; write(t3.length + t4.length); write(g);
   int[] t5 = [side(a)]; if (t5.length == 1) { write('t'); } write(g); int[] t6 = [a, side(a), 3]; int n = t6.length * 2; write(n); write(g); }''', [['0'], ['5']]))
+# 1, -1 and 0 as the constant operand of every operator, and operands that are syntactically equal: folding by algebraic
+# identity must keep the effects (and faults) of the other operand
+FOLD_PROGRAMS.append(('unit_operand_identities', '''int g = 0; int side(int v) { g += 1; write('s'); return v; }
+empty @is_you(int x) { write(side(x) % 1); write(side(x) % (0 - 1)); write(side(x) / 1); write(side(x) * 1); write(1 * side(x)); write(side(x) + 0); write(0 + side(x)); write(side(x) - 0); write(g); write(' ');
+  write(side(x) / (0 - 1)); write(side(x) * (0 - 1)); write(side(x) - side(x)); write(side(x) == side(x)); write(side(x) / side(x + 1)); write(g); write(' ');
+  int v = x; v %= 1; write(v); v = x; v *= 1; write(v); v /= 1; write(v); v += 0; write(v); write((side(x) > 0) and true); write((side(x) > 0) or false); write(true and (side(x) > 0)); write(g); }''',
+                      '''int g = 0; int side(int v) { g += 1; write('s'); return v; }
+empty @is_you(int x, int one, int m1, int z, int ti, int fi) { bool T = ti is bool; bool F = fi is bool; write(side(x) % one); write(side(x) % m1); write(side(x) / one); write(side(x) * one); write(one * side(x)); write(side(x) + z); write(z + side(x)); write(side(x) - z); write(g); write(' ');
+  write(side(x) / m1); write(side(x) * m1); write(side(x) - side(x)); write(side(x) == side(x)); write(side(x) / side(x + 1)); write(g); write(' ');
+  int v = x; v %= one; write(v); v = x; v *= one; write(v); v /= one; write(v); v += z; write(v); write((side(x) > 0) and T); write((side(x) > 0) or F); write(T and (side(x) > 0)); write(g); }''',
+                      [[str(x), '1', '-1', '0', '1', '0'] for x in (5, -7, 0, -1)]))
+# lengths of literal and constant strings / arrays, asked directly (may be folded) and through a variable (the twin)
+FOLD_PROGRAMS.append(('constant_lengths', '''const string CS = "\\u{4e16}\\u{754c}!"; string GS = "\\u{e9}t\\u{e9}"; const int[] CI = [1, 2, 3]; const bool[] CO = [true, false, true, true, false, false, true, false, true];
+empty @is_you(int a) { write("\\u{e9}x".length); write("abc".length); write("".length); write("\\u{1F30E}".length); write(CS.length); write(GS.length); write(CI.length); write(CO.length); write("q\\n\\x00z".length);
+  write(["ab", "c"].length); write([a, 2].length); write(("xyz" is byte[]).length); write(("\\u{e9}" is byte[]).length); for (int i = 0; i < "\\u{e9}\\u{e9}".length; i += 1) { write('.'); } write(CS.length * 2 + a); }''',
+                      '''empty @is_you(int a) { string s1 = "\\u{e9}x"; string s2 = "abc"; string s3 = ""; string s4 = "\\u{1F30E}"; string CS = "\\u{4e16}\\u{754c}!"; string GS = "\\u{e9}t\\u{e9}"; int[] CI = [1, 2, 3]; bool[] CO = [true, false, true, true, false, false, true, false, true]; string s5 = "q\\n\\x00z";
+  write(s1.length); write(s2.length); write(s3.length); write(s4.length); write(CS.length); write(GS.length); write(CI.length); write(CO.length); write(s5.length);
+  string[] sa = ["ab", "c"]; int[] ia = [a, 2]; string s6 = "xyz"; string s7 = "\\u{e9}"; string s8 = "\\u{e9}\\u{e9}"; const byte[] b6 = s6 is byte[]; const byte[] b7 = s7 is byte[]; write(sa.length); write(ia.length); write(b6.length); write(b7.length); for (int i = 0; i < s8.length; i += 1) { write('.'); } write(CS.length * 2 + a); }''',
+                      [['1'], ['0']]))
 # comparisons against literals outside the range of one operand's TYPE (bytes, bools as ints, lengths): only the value decides
 FOLD_PROGRAMS.append(('compare_with_out_of_range_literal', '''empty @is_you(byte x, byte y, int i) { string s = "abc"; bool t = i > 0;
   write((x + y) < 256); write((x * y) > 255); write((0 - x) < 0); write((x - y) >= 0); write(x < 256); write(x > (0 - 1)); write((x is int) == 300); write(x + y == 300);
